@@ -181,8 +181,10 @@ def _corruptions(ctx, rep, base):
     snap = os.path.join(base, "co.snap")
     shutil.copytree(path, snap, copy_function=shutil.copy2)
     for target in targets:
-        for cls in ("missing", "truncated", "truncated-24", "truncated-60", "truncated-1", "garbage", "empty", "transient"):
-            if cls.startswith("truncated-") and not target.endswith(".avro"):
+        for cls in ("missing", "truncated", "truncated-24", "truncated-60", "truncated-1", "garbage", "empty", "transient", "entry-bitrot"):
+            if (cls.startswith("truncated-") or cls == "entry-bitrot") and not target.endswith(".avro"):
+                continue
+            if cls == "entry-bitrot" and "manifest_list_" in target:
                 continue
             shutil.rmtree(path)
             shutil.copytree(snap, path, copy_function=shutil.copy2)
@@ -199,6 +201,16 @@ def _corruptions(ctx, rep, base):
                 if len(data) <= cut + 8:
                     continue
                 open(full, "wb").write(data[: len(data) - cut])
+            elif cls == "entry-bitrot":         # the Avro container stays valid; ONE entry's file_format no longer names a known format
+                import fastavro
+                with open(full, "rb") as f_:
+                    rd_ = fastavro.reader(f_)
+                    ws_, recs_ = rd_.writer_schema, list(rd_)
+                if not recs_:
+                    continue
+                recs_[-1] = dict(recs_[-1], data_file=dict(recs_[-1]["data_file"], file_format="parquat"))
+                with open(full, "wb") as f_:
+                    fastavro.writer(f_, ws_, recs_)
             elif cls == "garbage":
                 open(full, "wb").write(b"\x00\xffnot a file of this kind{{{")
             elif cls == "empty":
